@@ -148,4 +148,58 @@ PROPS = {
         test_clauses=["10^(v/20) vs exp(v*DB) in f64 (1e-12 relative)"],
         assumptions=["exp/ln laws enter as explicit hypotheses on the Transc instance"],
     ),
+    "C01": dict(
+        rule="whole-pipeline cases: bundled voice (1 in 3) or generated voices over {2,3 streams} x {stage 0, stage 1..3} x 1..7 states x window sets; random "
+             "in-envelope conditions (alpha, beta in [0,0.8], GV weights [0,2], thresholds, half tone +-24, volume +-20 dB, speed [0.25,4], frame-period and "
+             "rate overrides), 0..6 labels (consecutive corpus labels or labels with the twelve field groups recombined across the corpus), alignment on with "
+             "time stamps on some lines in 30 % of cases. The model is fed the dumped Models::duration()/model_stream(i) and must reproduce durations, the three "
+             "trajectories (hook) and the waveform. class = (voice kind, #streams, stage, alignment/speed, empty/non-empty, #states); "
+             "non-trivial = >= 2 labels with both voiced and unvoiced frames",
+        theorem_clauses=["waveform length = fperiod x sum of durations", "one duration >= 1 per state (speed and alignment paths), F >= labels x states",
+                         "MLPG shape on well-formed streams; the GV switch must cover every state (machine-checked counterexample otherwise)",
+                         "two-stream configuration never panics (repaired)", "one vocoder frame = fperiod samples"],
+        test_clauses=["all samples finite inside the stable range; otherwise a non-finite sample only after |x| > 1e150", "three-stream totality", "no panic on every generated case"],
+        assumptions=["well-formedness of the stream tables as the loader produces them"],
+    ),
+    "C11": dict(
+        rule="bundled, PDF-perturbed and generated voices (different voicing-weight distributions); 2..6 labels; two thresholds t1 <= t2 for the log-F0 stream "
+             "drawn from {the voicing weights actually present, 0, 1, 0.5, uniform}; four engine runs per case through the hook: base, raised threshold, stream "
+             "0 (and 2) threshold+GV weight changed, stream 1 threshold+GV weight changed. class = (voice kind, whether the voiced set shrinks, whether any frame "
+             "stays voiced); non-trivial = threshold splits the utterance",
+        theorem_clauses=["frame voiced iff voicing weight of its state > threshold", "raising the threshold only removes voiced frames",
+                         "unvoiced frames carry NODATA in every dimension", "NODATA -> period 0 (noise branch)", "stream i reads only its own threshold and GV weight",
+                         "non-MSD streams are all voiced"],
+        test_clauses=["which condition index reaches which stream inside Engine::generator (bitwise trajectory equality under changes to other streams)"],
+        assumptions=[],
+    ),
+    "C12": dict(
+        rule="(a) stage level: random small streams with a GV model and switch through MlpgAdjust (model vs implementation, 1e-6); (b) bundled voice and "
+             "PDF-perturbed copies, utterances of 10..60 corpus labels (consecutive or shuffled), GV stream 0 or 1, three ascending weights in [0.25,2]: variance of "
+             "every coefficient over eligible frames (GV switch on, voiced) vs weight x GV mean; silence-only utterances for the no-eligible case (compared bitwise "
+             "with the ML solution from the stage API); low-pass stream under two GV weights. class = (voice kind, stream, eligibility class)",
+        theorem_clauses=["target = gv_mean x gv_weight; switch expanded by durations and restricted to voiced frames", "no eligible frame -> plain ML solution",
+                         "a stream without GV ignores the GV weight"],
+        test_clauses=["variance within 20 % of the target when >= 100 frames are eligible", "variance monotone in the weight", "five Newton-like steps (model bit-identical)"],
+        assumptions=["the 20 % and monotonicity clauses are empirical properties of a truncated iteration; not provable in exact arithmetic without a convergence analysis"],
+    ),
+    "C15": dict(
+        rule="bundled, perturbed and generated voices with random in-envelope conditions (GV on), 2..6 labels; h in [-24,24] incl. 0, +-12, +-24 and values up "
+             "to +-80 that drive the clamp; two engine runs (h and 0) through the hook. class = (voice kind, zero/up/down/clamped); non-trivial = h != 0 with a voiced frame",
+        theorem_clauses=["h = 0 is the identity", "static mean -> clamp(m + h*ln2/12), nothing else of the state changes", "voicing mask unchanged", "durations unchanged",
+                         "spectrum and low-pass streams unchanged"],
+        test_clauses=["log-F0 of every voiced frame moves by h*ln2/12 through MLPG and GV (1e-6) while no state is clamped"],
+        assumptions=["shift-equivariance of the ML solution and of the GV iteration is tested, not proved"],
+    ),
+    "C17": dict(
+        rule="(a) utterances of 1..4 labels on bundled/generated voices in all four input forms (&[&str], &[String; N], Vec<String>, Vec<Label>), with blank lines "
+             "inserted, and with 100 ns time stamps while alignment is off: waveforms compared bitwise; time-stamp conversion checked. (b) 1..4 lines with one or two "
+             "corruptions out of 16 kinds (two tokens, bad start/end, nan/inf, negative/huge, leading/trailing/double space, truncated label, random bytes, unicode in label "
+             "or times, duplicated label, spaces only, exponent notation, valid times) and optional blank line: outcome class vs the model fed with the per-token verdicts of "
+             "str::parse::<f64> and Label::from_str. class = (corruption kinds, outcome)",
+        theorem_clauses=["splitn(3,' ') yields 1..3 pieces (the expect is unreachable)", "loading is total into ok|error — no panic outcome exists",
+                         "blank lines ignored anywhere", "error cases in the code's order", "strings without times = parsed labels with unknown times",
+                         "durations ignore time stamps when alignment is off"],
+        test_clauses=["jlabel's parser and f64 parsing themselves (parameters of the model)", "bitwise equality of waveforms across forms"],
+        assumptions=["jlabel::Label::from_str and str::parse::<f64> are outside the model; their verdicts travel with each case"],
+    ),
 }
